@@ -1,12 +1,81 @@
 /-
-  Props.C17 — the theorems that decide property C17 (see DESIGN.md §7).
+  Props.C17 — compile failures are reported consistently and with a usable
+  location (DESIGN.md §7, C17).
 -/
 import Props.Tables
+import Proofs.ApiGlue
 namespace Jmes.Props
-open Jmes
+open Jmes Jmes.Api
 
 theorem C17_generated_table_ok : TableOK Generated.table = true := generated_table_ok
 theorem C17_generated_sigs_ok : SigsOK Generated.functionTable Spec.functionTable = true := generated_sigs_ok
 theorem C17_generated_lex_ok : LexTablesOK Model.lexTables Spec.lexTables = true := generated_lex_ok
+
+variable {N : Type} [NumOps N]
+
+theorem C17_lex_tables_safe : Lexer.TablesSafe Model.lexTables := by
+  refine ⟨by decide, ?_⟩
+  intro kv hkv
+  simp only [Model.lexTables, Generated.basicTokens] at hkv
+  simp only [List.mem_cons, List.not_mem_nil, or_false] at hkv
+  rcases hkv with rfl | rfl | rfl | rfl | rfl | rfl | rfl | rfl | rfl | rfl <;> simp
+
+/-- Every syntax error `Compile` reports — from any of the failure sites of
+    the lexer and of the parser, for any byte string — carries a byte offset
+    inside the expression: 0 ≤ offset ≤ len(expression).  (Offsets are computed
+    in ℤ as in the Go code, e.g. `currentPos - 1`, so `0 ≤` is a real fact.) -/
+theorem C17_syntax_offset_in_range (expr : Bytes) (off : Int)
+    (h : (compile Model.cfg expr : Res (Node N)) = .err (.syntax off)) : 0 ≤ off ∧ off ≤ (expr.length : Int) := by
+  rw [compile_eq_parseWith] at h
+  have := Parser.parseWith_ok (N := N) (tbl := Generated.table) Model.lexTables C17_lex_tables_safe (by decide) expr
+  rw [show Model.cfg.lex = Model.lexTables from rfl, show Model.cfg.tbl = Generated.table from rfl] at h
+  rw [h] at this
+  exact this
+
+/-- The tokens of a successfully lexed expression lie inside it and end with
+    tEOF at len(expression). -/
+theorem C17_token_positions (expr : Bytes) (toks : List Token) (h : Lexer.tokenize Model.lexTables expr = .ok toks) :
+    (∃ pre, toks = pre ++ [⟨.eof, [], expr.length⟩]) ∧ ∀ t ∈ toks, t.pos ≤ expr.length := by
+  have := Lexer.tokenize_ok Model.lexTables C17_lex_tables_safe expr
+  rw [h] at this
+  obtain ⟨⟨pre, hp, _⟩, hpos⟩ := this
+  exact ⟨⟨pre, hp⟩, hpos⟩
+
+/-- The caret rendering: the expression, a newline, `offset` spaces, a caret —
+    well defined for every offset the theorem above allows. -/
+theorem C17_highlight (expr : Bytes) (off : Nat) :
+    highlight expr off = expr ++ [0x0A] ++ List.replicate off 0x20 ++ [0x5E] ∧
+    (highlight expr off).length = expr.length + off + 2 := by
+  simp [highlight]; omega
+
+/-- Compile returns either an expression or an error, never both, never
+    neither; MustCompile panics exactly when Compile fails and otherwise returns
+    what Compile returns. -/
+theorem C17_compile_contract (expr : Bytes) :
+    (∃ ast, (compile Model.cfg expr : Res (Node N)) = .ok ast) ∨ (∃ e, (compile Model.cfg expr : Res (Node N)) = .err e) := by
+  rw [compile_eq_parseWith]
+  have := Parser.parseWith_ok (N := N) (tbl := Generated.table) Model.lexTables C17_lex_tables_safe (by decide) expr
+  rw [show Model.cfg.lex = Model.lexTables from rfl, show Model.cfg.tbl = Generated.table from rfl]
+  cases h : (Parser.parseWith Model.lexTables Generated.table expr : Res (Node N)) with
+  | ok e => exact Or.inl ⟨e, rfl⟩
+  | err e => exact Or.inr ⟨e, rfl⟩
+  | panic s => rw [h] at this; exact this.elim
+
+theorem C17_must_compile (cfg : Config) (expr : Bytes) :
+    ((mustCompile cfg expr : Res (Node N)).isPanic = true ↔ ¬ ∃ ast, (compile cfg expr : Res (Node N)) = .ok ast) ∧
+    (∀ ast, (compile cfg expr : Res (Node N)) = .ok ast → mustCompile cfg expr = .ok ast) := by
+  unfold mustCompile
+  cases h : (compile cfg expr : Res (Node N)) with
+  | ok ast => simp [Res.isPanic]
+  | err e => simp [Res.isPanic]
+  | panic s => simp [Res.isPanic]
+
+/-! Non-vacuity: a lexer error, a parser error at end of input, an error at an invalid UTF-8 byte. -/
+def errOffset : Res (Node Int) → Option Int
+  | .err (.syntax off) => some off
+  | _ => none
+example : errOffset (compile Model.cfg [0x61, 0x2E]) = some 2 := by decide +kernel
+example : errOffset (compile Model.cfg [0x61, 0x20, 0x23]) = some 2 := by decide +kernel
+example : errOffset (compile Model.cfg [0x61, 0xFF]) = some 1 := by decide +kernel
 
 end Jmes.Props
